@@ -21,19 +21,20 @@ ASSUMPTIONS = [
 METHODS = ["GET", "HEAD", "PUT", "PATCH", "POST", "DELETE", "OPTIONS", "TRACE", "CONNECT"]
 PATHS = ["/", "/a", "/a b", "/é", "/a%41", "/x;y", "/a+b"]
 QATOMS = ["a", "a b", "ä", "a&b", "a=b", "#", "+", "%41", ";", ""]
-HEADERS = [("X-A", "1"), ("x-b", "v w"), ("X-C", "é"), ("X-D", "a,b"), ("Accept", "text/x: y")]
+HEADERS = [("X-A", "1"), ("x-b", "v w"), ("X-C", "é"), ("X-D", "a,b"), ("Accept", "text/x: y"), ("X-E", "")]   # last: an empty value is a legal field value
 BODIES = [("raw", b""), ("raw", b"abc"), ("raw", bytes(range(256))), ("raw", b"\r\n\r\n"),
           ("data", {}), ("data", {"a": 1}), ("data", {"ä": [1, 2]}),
-          ("fargs", {"a": "b"}), ("fargs", {"a b": "c&d"})]
+          ("fargs", {"a": "b"}), ("fargs", {"a b": "c&d"}),
+          ("str", "h\u00e9\u00ff")]      # a str body: documented to be sent as iso-8859-1 (RFC 2616 3.7.1 default charset)
 
 
 def RULE(tier):
     return ("product enumeration: 9 methods x 7 paths x query-argument dicts with %s entries over 10 key/value atoms (blank, unicode, "
-            "&, =, #, +, %%41, ;, empty) x %s of 5 header fields x 9 bodies (raw incl. all 256 byte values, JSON data, form fields) x "
+            "&, =, #, +, %%41, ;, empty) x %s of 6 header fields (one with an empty value) x 10 bodies (raw incl. all 256 byte values, a latin-1 str, JSON data, form fields) x "
             "explicit Content-Length or not; built by the real Requester (and http.Client for a subset), parsed by the real Requestant "
             "and Server.buildEnviron; method, path, query arguments (reference urlencoded reader), header values and body bytes must "
             "be recovered; and the same for the SECOND request of a reused Requester (3 earlier requests: form fields, JSON data, raw body "
-            "with headers and query) over all 9 bodies x 2 query dicts x 2 header sets." % (("<= 1", "<= 1") if tier == "quick" else ("<= 2", "<= 2")))
+            "with headers and query) over all 10 bodies x 2 query dicts x 2 header sets." % (("<= 1", "<= 1") if tier == "quick" else ("<= 2", "<= 2")))
 
 
 def EXHAUSTIVE(tier):
@@ -93,7 +94,7 @@ SEQ_HEADERS = [[], [("X-A", "1")]]
 def check(method, path, qargs, headers, bkind, bval, explicit_cl, via_client=False, prior=None):
     v = []
     kw = dict(method=method, path=path, qargs=dict(qargs), headers=dict(headers))
-    if bkind == "raw":
+    if bkind in ("raw", "str"):
         kw["body"] = bval
     elif bkind == "data":
         kw["data"] = bval
@@ -152,6 +153,8 @@ def check(method, path, qargs, headers, bkind, bval, explicit_cl, via_client=Fal
         wantbody = b""
     elif bkind == "raw":
         wantbody = bval
+    elif bkind == "str":
+        wantbody = bval.encode("iso-8859-1")
     else:
         wantbody = wire_body
     gotbody = bytes(rt.body)
